@@ -111,7 +111,17 @@ func runProp(pd *propDef, repo, verif, tier string, seed int64, evPath string, s
 		fmt.Printf("VIOLATION property=%s replay=%s\n", pd.ID, vpath)
 		return 1
 	}
+	canaryErr := ""
 	P, err := loadRepo(repo, "", pd.Canaries)
+	if err != nil && len(pd.Canaries) > 0 {
+		// The injected canary functions may no longer type-check against the
+		// current tree (e.g. a field changed type).  Judge the real code without
+		// them and report the lost self-test separately.
+		if P2, err2 := loadRepo(repo, "", nil); err2 == nil {
+			canaryErr = firstLines(err.Error(), 3)
+			P, err = P2, nil
+		}
+	}
 	if err != nil {
 		return fail(err.Error())
 	}
@@ -120,6 +130,9 @@ func runProp(pd *propDef, repo, verif, tier string, seed int64, evPath string, s
 	}
 	c := newCtx(P, pd.ID, tier)
 	c.Level = pd.Level
+	if canaryErr != "" {
+		defer func() {}()
+	}
 	func() {
 		defer func() {
 			if r := recover(); r != nil {
@@ -131,6 +144,11 @@ func runProp(pd *propDef, repo, verif, tier string, seed int64, evPath string, s
 			pd.Thorough(c)
 		}
 	}()
+	if canaryErr != "" {
+		// expectations cannot be met without the overlay: drop them, report once
+		c.CanaryBad, c.CanaryOK = map[string]bool{}, map[string]bool{}
+		c.undecided("CANARY", "overlay", 0, "the injected canary functions do not type-check against the current tree, so the rules ran without their positive examples: "+canaryErr)
+	}
 	if tier == "thorough" {
 		// extra configurations: the same rules on other GOARCH loader environments
 		var cfgs []string
